@@ -60,6 +60,39 @@ theorem round_answered_only_on_evidence (E : Env) (m : Member) {s0 s' : State} {
   rw [h1, h2, hstill.1] at hans
   simp [Gen.probeSucceeded] at hans
 
+/-- **Once answered, a round stays answered** (one call): any call other than the delivery of a probe timer keeps
+    "while the probe targets `m` under `N`, the round counts as answered". -/
+theorem answered_stays_answered_step (E : Env) (m : Member) (N : Nat) (s : State) (op : Op) (orc : Oracle)
+    (h : HasEv m N s) (hop : ∀ tok, op ≠ .timer (.probe tok)) :
+    match step E s op orc with
+    | .done s' _ _ _ => HasEv m N s'
+    | .stuck _ => True := HasEv.step E m N s op orc h hop
+
+/-- **Evidence suffices, and nothing takes it back.** Once the round for `m` under `N` counts as answered — the Ack
+    or a ForwardedAck has been recorded — then over any history of calls up to the next probe timer (any datagrams:
+    stale or contradicting gossip about `m`, duplicate or foreign Acks; the indirect-probe timer, periodic timers,
+    suspicion timeouts, forget-timers; API calls), as long as the probe still targets `m` under `N` the next probe
+    timer will find nobody to suspect. With `round_answered_only_on_evidence` this pins down `RoundAnswered`, the
+    premise of `C02S.calm_cluster_stays_calm`: a round is answered exactly when its evidence arrived before the next
+    probe timer. -/
+theorem evidence_suffices (E : Env) (m : Member) {s0 s' : State} {ops : List Op}
+    (hans : s0.probe.succeeded = true) (hrun : Hist E s0 ops s')
+    (hnp : ∀ op ∈ ops, ∀ tok, op ≠ .timer (.probe tok))
+    (hstill : s'.probe.direct = some m ∧ s'.probe.number = s0.probe.number) :
+    s'.probe.takeFailed.1 = none := by
+  have hinv : HasEv m s0.probe.number s' := by
+    clear hstill
+    induction hrun with
+    | refl => exact fun _ _ => hans
+    | step op orc eff r left _ hstep ih =>
+      have h1 := ih (fun o ho => hnp o (List.mem_append.2 (Or.inl ho)))
+      have := answered_stays_answered_step E m _ _ op orc h1 (hnp op (by simp))
+      rw [hstep] at this
+      exact this
+  have := hinv hstill.1 hstill.2
+  unfold Probe.takeFailed
+  simp [this]
+
 /-- a round that has just started meets the premise -/
 theorem started_round_has_no_evidence (p : Probe) (m : Member) :
     (p.start m).direct = some m ∧ (p.start m).directAckOk = false ∧ (p.start m).indirectAckCount = 0 :=
@@ -87,5 +120,8 @@ example : Hist C08H.exEnv exS2 [.data exAck] exS3 ∧
     exS3.probe.takeFailed.1 = none ∧
     C08H.exEnv.codec.decHeader exAck = some (⟨⟨2, 0⟩, 0, ⟨1, 0⟩, .ack 1⟩, []) :=
   ⟨Hist.step (ops := []) (.data exAck) ⟨[], []⟩ _ _ _ (Hist.refl _) (by rfl), by decide, by decide, by decide, by decide⟩
+
+/-- … and the state after that Ack meets the premise of `evidence_suffices` -/
+example : exS3.probe.succeeded = true ∧ exS3.probe.direct = some ⟨⟨2, 0⟩, 0, .alive⟩ := by decide
 
 end Foca.C12H
